@@ -85,7 +85,9 @@ def token (s s' : St) (l : Label) : String :=
   | .rcv _ =>
     match s.rp with
     | .dead => "-"
-    | .idle => if s'.rp = .idle then "-" else toString s'.rp.point
+    | .idle =>
+      if s'.cres.length > s.cres.length then "=eos"
+      else if s'.rp = .idle then "-" else toString s'.rp.point
     | .ntfW => "=dropped"
     | _ =>
       if blocked s l then "B"
